@@ -31,6 +31,20 @@ def _trades_placed_into_complete_trade(trace, upto):
     steps = trace["steps"]
     for i in range(1, min(upto, len(steps))):
         pre = steps[i - 1]["st"] if "st" in steps[i - 1] else trace["states"][steps[i - 1]["si"] - 1]
+        # the trade is healed as soon as a handler brackets it again (`with order.trade`: PENDING, then LIVE and the
+        # completion test when the block is left) - what is wrong after that is not this finding
+        for tt in steps[i].get("ttrans") or []:
+            if tt[2] == "PENDING":
+                tainted.discard(tt[0])
+        # every status change an execution handler makes (responses, reset after an API error) is made inside that
+        # bracket: a handler step that moved an order of the trade ends the finding's reach whether or not the
+        # bracket was there
+        if steps[i].get("ev") in ("run", "exec"):
+            post = steps[i]["st"] if "st" in steps[i] else trace["states"][steps[i]["si"] - 1]
+            for tr in steps[i].get("trans") or []:
+                o = (post.get("ord") or {}).get(tr[0])
+                if o and o.get("trade"):
+                    tainted.discard(o["trade"])
         for q in steps[i].get("reqs", []):
             # (placed inside the strategy's own `with trade:` the trade is re-opened when the block is left: not the finding)
             if q.get("kind") == "PLACE" and q.get("r") == "ACCEPT" and not q.get("ctx"):
